@@ -198,6 +198,8 @@ def keyed_attributes(chk, cases, bad, extra):
 def _post(chk, cases, bad, extra):
     line_injection(chk, cases, bad, extra)
     keyed_attributes(chk, cases, bad, extra)
+    import keyed_explore
+    keyed_explore.explore(chk, extra, "C01")
 
 
 def main(tier, replay=None):  # noqa: F811
